@@ -107,9 +107,13 @@ def run_srcfacts(log):
 
 
 def lean_build(modules):
+    """returns (props_ok, driver_ok, log, wall). The driver (model + line protocol) is built separately
+    from the property modules so that tie B still runs - and can supply the failing input - when a
+    proof obligation over regenerated facts no longer checks."""
     with Lock("lake"):
-        rc, out, dt = sh(["lake", "build"] + modules + ["driver"], cwd=LEAN, timeout=3000)
-    return rc == 0, out, dt
+        rc_d, out_d, dt_d = sh(["lake", "build", "driver"], cwd=LEAN, timeout=3000)
+        rc, out, dt = sh(["lake", "build"] + modules, cwd=LEAN, timeout=3000)
+    return rc == 0, rc_d == 0, out + ("\n--- driver build ---\n" + out_d if rc_d != 0 else ""), dt + dt_d
 
 
 def lean_audit(pid, modules, names):
@@ -231,7 +235,7 @@ def main(argv):
     obligations = []
     for f in prop_files:
         obligations += theorem_names(f)
-    built, blog, bwall = lean_build(cfg["modules"])
+    built, driver_ok, blog, bwall = lean_build(cfg["modules"])
     discharged = []
     audit = {}
     if not built:
@@ -270,7 +274,7 @@ def main(argv):
     if not gok:
         breaks.append({"kind": "harness", "sig": pid.lower() + ":go-build",
                        "what": "harness does not build against the current /repo tree", "detail": glog[-6000:]})
-    elif built and cfg.get("runner"):
+    elif driver_ok and cfg.get("runner"):
         plan = []
         if a.replay:
             rp = json.load(open(a.replay))
@@ -316,7 +320,7 @@ def main(argv):
     # ---- failing-input search when only a proof / correspondence tie broke ---------------------
     found_input = [b for b in unlisted if b["kind"] == "oracle"]
     searched = 0
-    if unlisted and not found_input and gok and built and cfg.get("runner") and not a.replay:
+    if unlisted and not found_input and gok and driver_ok and cfg.get("runner") and not a.replay:
         for s2 in range(seed + 1, seed + 1 + cfg.get("search_seeds", 3)):
             r = run_cases(pid, cfg, "search%d" % s2, s2, "thorough", None, timeout=cfg.get("timeout", {}).get("thorough", 3000))
             searched += len(r["cases"])
